@@ -908,3 +908,21 @@ c@K@(): () == {
 
 FAMILIES.update({'F6M': f6m})
 FAMILIES.update({'F3P': f3p})
+
+
+def f7b(tier):
+    """exceptions across functions of very different size: the thrower and the catcher are each either small or have more than
+    255 branch targets (the interpreter stores label numbers in one byte up to 255 and in four bytes above)"""
+    def ifs(var, n, acc):
+        return [('if', B('>', V(var), L(k * 3)), [('assign', acc, B('+', V(acc), L(k % 7 + 1)))], None) for k in range(n)]
+    C = []
+    for nthrow, ncatch in ((2, 2), (301, 2), (2, 301), (301, 301)):
+        thrower = ('fn', 'bg', [('n', 'I')], 'I', [('decl', 's', 'I', L(0))] + ifs('n', nthrow, 's') +
+                   [('if', B('>', V('n'), L(1000)), [('throw', 'VExA')], None), ('value', V('s'))])
+        catcher = ('fn', 'rn', [('n', 'I')], 'I', [('decl', 'r', 'I', L(0)), ('try', [('assign', 'r', ('call', 'bg', [V('n')]))], [('VExnA', [('assign', 'r', L(-11))])], None)] +
+                   ifs('n', ncatch, 'r') + [('value', V('r'))])
+        C.append(('MI', [thrower, catcher, P(('call', 'rn', [L(7)])), P(('call', 'rn', [L(2000)])), P(('call', 'rn', [L(9)]))]))
+    return C
+
+
+FAMILIES.update({'F7B': f7b})
